@@ -31,7 +31,7 @@ ASSUMPTIONS = [
     "an ignored directory event is decided before any pattern is examined (no ValueError demanded there)",
 ]
 MINIMUMS = {"quick": {"dispatch_verdicts": 50000, "filter_verdicts": 1000, "base_verdicts": 100, "concurrent_verdicts": 2000},
-            "thorough": {"dispatch_verdicts": 900000}}
+            "thorough": {"dispatch_verdicts": 150000}}
 WALL_CAP = {"quick": 150, "thorough": 2400}
 
 SRCS = ["/a/x.py", "/a/X.PY", "/a/b/y.txt", "/a", "x.py", b"/a/x.py", "/A/b/x.py"]
